@@ -55,6 +55,8 @@ def do_call(I, e: ast.Call) -> SV:
                 return r
         raise Unsupported(f"super().{f.attr}")
     fv = I.eval(f)
+    if isinstance(fv, SBuiltin) and fv.bound is None and fv.name in ("any", "all") and len(e.args) == 1 and isinstance(e.args[0], (ast.GeneratorExp, ast.ListComp)):
+        return any_all(I, fv.name, e.args[0], e)
     # isinstance / cast need unevaluated type arguments
     if isinstance(fv, SBuiltin) and fv.bound is None:
         if fv.name == "isinstance":
@@ -63,6 +65,39 @@ def do_call(I, e: ast.Call) -> SV:
             return I.eval(e.args[1])
     pos, kw = eval_args(I, e)
     return apply_value(I, fv, pos, kw, e)
+
+
+def _pure_pred(x):
+    for n in ast.walk(x):
+        if isinstance(n, ast.Call) and not (isinstance(n.func, ast.Name) and n.func.id in ("isinstance", "len")):
+            return False
+        if isinstance(n, (ast.Lambda, ast.Await, ast.Yield, ast.NamedExpr)):
+            return False
+    return True
+
+
+def any_all(I, which, comp, node):
+    """any(p(x) for x in xs) / all(...): exact over a concrete-length iterable; over a symbolic list with a
+    side-effect-free predicate the value is an unconstrained Bool (over-approximation: both outcomes explored)."""
+    g = comp.generators[0]
+    src = I.eval(g.iter)
+    if len(comp.generators) != 1 or not _pure_pred(comp.elt) or not all(_pure_pred(c) for c in g.ifs):
+        raise Unsupported(f"{which}() over a generator with calls")
+    if isinstance(src, (PySeq, PyDict, PyConst)):
+        acc = z3.BoolVal(which == "all")
+        saved = dict(I.st.env)
+        for it in I.iter_concrete(src, node):
+            I.assign(g.target, it)
+            conds = [I.truth(I.eval(c)) for c in g.ifs]
+            v = I.truth(I.eval(comp.elt))
+            guard = z3.And(*conds) if conds else z3.BoolVal(True)
+            acc = z3.Or(acc, z3.And(guard, v)) if which == "any" else z3.And(acc, z3.Implies(guard, v))
+        I.st.env = saved
+        return SBool(acc)
+    if isinstance(src, SAdt) and I.list_shape(src):
+        b = I.fresh("Bool", f"{which}_over_list_L{getattr(node, 'lineno', 0)}")
+        return SBool(b)
+    raise Unsupported(f"{which}() over {src!r}")
 
 
 def call_isinstance(I, e):
